@@ -48,6 +48,11 @@ type party struct {
 	xPub   []byte
 	ref    refage.Key
 	plain  age.Identity // the tree's plain identity; start-up sanity check only
+
+	// pseudo party (tagvar.go): the stanza for variantOf with a near-tag first argument
+	variantOf *party
+	v         *tagVariant
+	wrongBody bool
 }
 
 // tag is the public-key tag of an SSH party, recomputed by the reference.
@@ -62,6 +67,9 @@ func (p *party) tag() string {
 }
 
 func (p *party) wrap(fk []byte, label string) refage.Stanza {
+	if p.variantOf != nil {
+		return p.variantStanza(fk, label)
+	}
 	var s refage.Stanza
 	var err error
 	switch p.typ {
@@ -107,6 +115,14 @@ type fileKind struct {
 	// decided on the stanza list by the rule of the property: a stanza whose
 	// type and first argument are the key type and tag of D / of S
 	hasD, hasS bool
+	// near-tag files (tagvar.go): class letter of the variant, the answer of
+	// the tree's plain identity of S on the list (measured at start-up), and
+	// whether the list holds a malformed stanza of the identity's own type, for
+	// which a hard error is as good as "no match"
+	variant    string
+	place      string
+	plainClass string
+	lenient    bool
 	matchPos   int // index of the first stanza carrying D's type and tag, -1 if none
 }
 
@@ -118,8 +134,31 @@ func (f *fileKind) stanzaNames() []string {
 	return out
 }
 
+// plainCls is what the plain identity of S answers on this file.
+func (f *fileKind) plainCls() string {
+	switch {
+	case f.plainClass != "":
+		return f.plainClass
+	case f.hasS:
+		return clsPlain
+	}
+	return clsNoMatch
+}
+
+func (f *fileKind) tabName() string {
+	if f.variant != "" {
+		return "near-tag-" + f.variant + "-" + f.place
+	}
+	return f.name
+}
+
 func (f *fileKind) matchClass() string {
 	switch {
+	case f.variant != "" && f.place != "alone":
+		// with a genuine stanza present the variant class is not what matters
+		return "near-tag-" + f.place
+	case f.variant != "":
+		return "near-tag-" + f.variant + "-" + f.place
 	case f.matchPos < 0:
 		return "no-matching-stanza"
 	case f.matchPos == 0:
@@ -170,6 +209,17 @@ type idConf struct {
 	ext    []*fileKind  // base + extra kinds, for sampled histories
 	multi  [4]*fileKind // M0..M3
 	byName map[string]*fileKind
+}
+
+// kindName: ed25519, rsa-openssh, rsa-pem
+func (c *idConf) kindName() string {
+	if c.keyType() == "rsa" {
+		if c.format == "legacy-pem" {
+			return "rsa-pem"
+		}
+		return "rsa-openssh"
+	}
+	return c.keyType()
 }
 
 func (c *idConf) keyType() string { return strings.TrimPrefix(c.D.typ, "ssh-") }
@@ -527,8 +577,8 @@ func runHistory(r *mon.Run, col *collector, b *batch, h []step) (recs []stepRec)
 		f := cur.f
 		prompts = 0
 		stateT, stateV := T.label(), V.label()
-		wantT := T.step(f.hasD, f.hasS, cur.p)
-		wantV := V.step(f.hasD, f.hasS, cur.p)
+		wantT := T.stepP(f.hasD, f.plainCls(), cur.p)
+		wantV := V.stepP(f.hasD, f.plainCls(), cur.p)
 		state, want := stateT, wantT
 		if followV {
 			state, want = stateV, wantV
@@ -549,11 +599,20 @@ func runHistory(r *mon.Run, col *collector, b *batch, h []step) (recs []stepRec)
 			State: state, Want: fmtPred(want.prompts, want.class), Got: fmtPred(got.prompts, got.class), Detail: got.detail,
 			FileBytes: base64.StdEncoding.EncodeToString(f.file)})
 
-		okT := !panicked && got.prompts == wantT.prompts && got.class == wantT.class
-		okV := !panicked && got.prompts == wantV.prompts && got.class == wantV.class
+		agrees := func(w pred) bool {
+			if panicked || got.prompts != w.prompts {
+				return false
+			}
+			// a malformed stanza of the identity's own type may be a hard error
+			return got.class == w.class || (f.lenient && w.class == clsNoMatch && got.class == clsError)
+		}
+		okT, okV := agrees(wantT), agrees(wantV)
+		if f.variant != "" && stateT != "unlocked" {
+			markNearTag(r, f.variant, c.kindName())
+		}
 		if !followV && okT {
 			vOK = vOK && okV
-			r.Tab("state_x_file_x_callback", fmt.Sprintf("%s %s %s", stateT, f.name, cur.p))
+			r.Tab("state_x_file_x_callback", fmt.Sprintf("%s %s %s", stateT, f.tabName(), cur.p))
 			r.Tab("step_outcome", fmt.Sprintf("%s/%s: %s -> %s", c.keyType(), c.consistency(), stateT, fmtPred(got.prompts, got.class)))
 			if got.prompts > 0 {
 				r.Count("prompts", int64(got.prompts))
@@ -626,6 +685,7 @@ func main() {
 		"fixed key files: OpenSSH/bcrypt (ssh-keygen -a 2) Ed25519 and RSA, legacy PEM (AES-128-CBC) RSA; RSA moduli of 2048, 2500 and 2052 bits; one right passphrase; wrong = another string, passphrase plus a space, empty, nil",
 		"every step is age.Decrypt with the identity as the only identity, on a well-formed file built by refage; a stanza of the identity's type without arguments is outside the alphabet (C14)",
 		"histories are sequential (C20 covers sharing); the identity value is never copied",
+		"near-tag stanzas (first argument close to but not the 6-character tag; classes a-i in tagvar.go): a locked identity must not ask; where the stanza is malformed for its own type (argument count, key share) a hard error is accepted in place of no-match; after a legitimate unlock the expected outcome is what the tree's own plain identity answers on that stanza list (Appendix B: unlocked = plain identity); arguments with white space or NUL cannot occur in a header and are run at the Unwrap level only",
 		"multi-identity stage: one age.Decrypt per case over headers of 2..3 (thorough 4) distinct stanzas from {X25519, ssh-ed25519 x2, ssh-rsa x2, unknown} in every order and lists of 2..3 distinct identity kinds in every order, fresh identity values per case; an identity after the one that ends the call may or may not be consulted (at most one prompt, none without a stanza of its own); Unwrap-level sequences on one shared stanza slice compared with a deep snapshot, including two elements of spare capacity",
 		"CLI stage: one `age -d -i KEY -o out FILE` run per case on a pty (fresh process, so one step per identity); the identity's public key is the one embedded in an OpenSSH-format key file, else the sibling .pub; a no-match failure is recognised by the tool's message \"no identity matched\"",
 		"thorough length-4 enumeration folds the four multi-stanza positions into one symbol whose position is fixed per (history, step); all four positions are separate symbols up to length 3",
@@ -679,6 +739,9 @@ func main() {
 			r.Count("sanity_failures", 1)
 		}
 		for _, f := range c.ext {
+			if f.variant != "" {
+				continue
+			}
 			_, rerr := refage.Decrypt(f.file, c.S.ref)
 			cls, detail := observe(c.S.plain, f)
 			wantCls := clsNoMatch
@@ -743,6 +806,16 @@ func main() {
 		batches = append(batches, enumBatch(c, "all-histories-len<=2", alphabetOf(c.base), 2))
 	}
 	r.Set("rsa_modulus_bits", []int{encRsa1.rsaPub.N.BitLen(), rsa2.rsaPub.N.BitLen(), encRsa2500.rsaPub.N.BitLen(), encRsa2052.rsaPub.N.BitLen()})
+	// near-tag stanzas: explicit histories on the consistent Ed25519, RSA
+	// OpenSSH and RSA PEM identities (both tiers)
+	tagConfs := []*idConf{edCons, rsaConsO, rsaConsP}
+	for _, c := range tagConfs {
+		hs := addTagVariantFiles(r, c, c.U.tag())
+		batches = append(batches, &batch{c: c, name: "near-tag-histories", count: len(hs), exact: true, history: func(i int) []step { return hs[i] }})
+	}
+	if r.Counter("sanity_failures") != 0 {
+		r.Finish()
+	}
 	nS := r.Pick(100, 1500)
 	for _, c := range []*idConf{rsaConsO, rsaConsP, rsaInconsP, rsaInconsO, rsa2500Cons, rsa2052Cons, rsaOddIncons, rsaOddIncons2} {
 		batches = append(batches, sampleBatch(r, c, nS, 6))
@@ -802,6 +875,12 @@ func main() {
 		ps[p.name] = p
 	}
 	if os.Getenv("C19_STAGE") != "cli" {
+		fs := newFindings()
+		tagUnwrapStage(r, fs, tagConfs, map[string]string{"ssh-ed25519": encEd2.tag(), "ssh-rsa": r1.tag()})
+		fs.report(r)
+		if os.Getenv("C19_STAGE") == "" {
+			nearTagVacuity(r, []string{"ed25519", "rsa-openssh", "rsa-pem"})
+		}
 		multiStages(r, ps)
 	}
 	cliStage(r, ps)
